@@ -36,8 +36,9 @@ func c13Text(v int, withInclude bool) string {
 }
 
 type c13Msg struct {
-	Doc     int `json:"doc"`
-	Version int `json:"version"` // 0 = didOpen
+	Doc     int    `json:"doc"`
+	Version int    `json:"version"` // 0 = didOpen
+	Special string `json:"special,omitempty"` // "", "empty", "blank", "first" (the text of version 0 again)
 }
 
 type c13Scenario struct {
@@ -74,6 +75,14 @@ func c13DocName(d int) string {
 }
 
 func c13VersionText(sc c13Scenario, m c13Msg) string {
+	switch m.Special {
+	case "empty":
+		return ""
+	case "blank":
+		return " \n\n"
+	case "first":
+		return c13Text(m.Doc*2, sc.Include)
+	}
 	// distinct content per (doc, version)
 	return c13Text(m.Doc*2+m.Version, sc.Include)
 }
@@ -138,7 +147,7 @@ func c13Scenarios(thorough bool) []c13Scenario {
 	burst := func(n int) []c13Msg {
 		var ms []c13Msg
 		for v := 0; v <= n; v++ {
-			ms = append(ms, c13Msg{0, v})
+			ms = append(ms, c13Msg{Doc: 0, Version: v})
 		}
 		return ms
 	}
@@ -168,14 +177,26 @@ func c13Scenarios(thorough bool) []c13Scenario {
 		out = append(out, c13Scenario{Name: fmt.Sprintf("ws-inc-%d-changes", n), Msgs: burst(n), Workspace: true, Include: true, Bound: bound})
 		out = append(out, c13Scenario{Name: fmt.Sprintf("inc-%d-changes", n), Msgs: burst(n), Include: true, Bound: bound})
 	}
+	// unusual versions: a superseded or final version that is empty or blank
+	// (select-all + delete, then paste), and a text that comes back (A B A)
+	sb := 2
+	if thorough {
+		sb = 3
+	}
+	out = append(out,
+		c13Scenario{Name: "blank-in-the-middle", Msgs: []c13Msg{{Doc: 0, Version: 0}, {Doc: 0, Version: 3, Special: "blank"}, {Doc: 0, Version: 1}}, Bound: sb},
+		c13Scenario{Name: "empty-in-the-middle", Msgs: []c13Msg{{Doc: 0, Version: 0}, {Doc: 0, Version: 1, Special: "empty"}, {Doc: 0, Version: 2}}, Bound: sb},
+		c13Scenario{Name: "blank-at-the-end", Msgs: []c13Msg{{Doc: 0, Version: 0}, {Doc: 0, Version: 1}, {Doc: 0, Version: 2, Special: "blank"}}, Bound: sb},
+		c13Scenario{Name: "text-comes-back", Msgs: []c13Msg{{Doc: 0, Version: 0}, {Doc: 0, Version: 1}, {Doc: 0, Version: 2, Special: "first"}}, Bound: sb},
+	)
 	// two documents: 2+2 and 2+3 messages, interleaved
-	two := []c13Msg{{0, 0}, {1, 0}, {0, 1}, {1, 1}}
+	two := []c13Msg{{Doc: 0, Version: 0}, {Doc: 1, Version: 0}, {Doc: 0, Version: 1}, {Doc: 1, Version: 1}}
 	bound := 1
 	if thorough {
 		bound = 2
 	}
 	out = append(out, c13Scenario{Name: "two-docs-2+2", Msgs: two, Bound: bound})
-	out = append(out, c13Scenario{Name: "two-docs-2+3", Msgs: append(append([]c13Msg{}, two...), c13Msg{1, 2}), Bound: bound})
+	out = append(out, c13Scenario{Name: "two-docs-2+3", Msgs: append(append([]c13Msg{}, two...), c13Msg{Doc: 1, Version: 2}), Bound: bound})
 	return out
 }
 
